@@ -87,6 +87,9 @@ def _cases(tier, seed):
     for text, key in (('html.output = "docs/api"', 'html'), ('sidebar = { expand-depth = 3 }', 'sidebar'), ('project-name = "named"\n[tool.pydoctor.sidebar]\nexpand-depth = 3', 'sidebar'),
                       ('plain-unknown = 1', 'plain-unknown')):
         yield {'special': 'toml-unknown-table', 'text': text, 'key': key}
+    # configargparse also accepts the option spelled with its dashes as a key
+    for fmt in ('toml', 'setupcfg', 'ini'):
+        yield {'special': 'dashed-key', 'fmt': fmt}
     # keys are case-sensitive in TOML: a key that differs from an option only by case is an unknown key
     for k in ('Project-Name', 'DOCFORMAT', 'Warnings-As-Errors'):
         yield {'special': 'unknown-key', 'fmt': 'toml', 'key': k}
@@ -204,6 +207,17 @@ def _check(case):
             if got != case['want']:
                 return {'observed': f'pydoctor.ini line {case["text"]!r} is read as {got!r}', 'required': f'{case["want"]!r} (INI rules)',
                         'class': 'ini-as-toml', 'ini_as_toml': True}
+            return None
+        if case.get('special') == 'dashed-key':
+            sec = {'toml': '[tool.pydoctor]', 'setupcfg': '[tool:pydoctor]', 'ini': '[pydoctor]'}[case['fmt']]
+            name = {'toml': 'pyproject.toml', 'setupcfg': 'setup.cfg', 'ini': 'pydoctor.ini'}[case['fmt']]
+            q = '"' if case['fmt'] == 'toml' else ''
+            with open(os.path.join(d1, name), 'w') as fh:
+                fh.write(f'{sec}\n--project-name = {q}named{q}\n--docformat = {q}restructuredtext{q}\n')
+            o, w = _from_args([], d1)
+            if isinstance(o, tuple) or o.projectname != 'named' or o.docformat != 'restructuredtext' or any('No such config option' in str(x.message) for x in w):
+                return {'observed': f'keys spelled --project-name / --docformat in {name}: ' + (str(o) if isinstance(o, tuple) else f'projectname={o.projectname!r} docformat={o.docformat!r}, warnings {[str(x.message)[:50] for x in w]}'),
+                        'required': "as on the command line: projectname='named', docformat='restructuredtext', no warning", 'class': 'dashed-key'}
             return None
         if case.get('special') == 'toml-unknown-table':
             with open(os.path.join(d1, 'pyproject.toml'), 'w') as fh:
